@@ -277,7 +277,7 @@ func (in *Interp) visitInstr(fr *frame, instr ssa.Instruction) continuation {
 		fr.env[instr] = fr.get(instr.Iter).(iter).next()
 
 	case *ssa.FieldAddr:
-		p := derefPtr(fr.get(instr.X), "field address")
+		p := derefPtr(fr.get(instr.X), "field address in "+fr.fn.String())
 		s, ok := (*p).(structure)
 		if !ok {
 			in.unsupported("FieldAddr on %T in %s", *p, fr.fn)
